@@ -12,6 +12,7 @@ CONSTANTS MaxLen, MaxV, Wts,
           CoSort,        \* TRUE = array weights are permuted with the data
           ZerosFirst,    \* TRUE = deviation: zeros removed before ranking
           PosRule,       \* "mid" = (i - 1/2)/n ; "in" = deviation i/n
+          TieByWeight,   \* FALSE = deviation: tied observations keep their input order (array weights)
           SharedPos,     \* TRUE = deviation: with a fixed delta the linearised positions
                          \*        log10(-ln(1-p^(1/delta))) are kept in a process-wide table keyed by the
                          \*        sample size only, so an earlier fit with another delta supplies them
@@ -63,7 +64,7 @@ DropFirst ==                                       \* only under the ZerosFirst 
 
 Sort ==
     /\ pc = "sorting"
-    /\ ord' = ArgSort([i \in 1..Len(cur) |-> cur[i].x])
+    /\ ord' = ArgSortObs(cur, wk, TieByWeight)
     /\ cur' = SortStep(cur, ord')
     /\ pc' = "weights"
     /\ UNCHANGED <<method, wk, F, d, w, dcode, prev, lind>>
@@ -92,7 +93,7 @@ Spec == Init /\ [][Next]_vars
 
 Terminal == {"ValueError", "NotImplementedError", "fit-fixed-delta", "fit-free-delta"}
 Done == pc \in {"fit-fixed-delta", "fit-free-delta"}
-Fin(dd, ww, k) == Final(dd, ww, k, CoSort, ZerosFirst, PosRule)
+Fin(dd, ww, k) == Final(dd, ww, k, CoSort, ZerosFirst, PosRule, TieByWeight)
 
 (* ---- invariants ---- *)
 OutcomeTable == pc \in Terminal => pc \in Outcomes(method, wk, F)
@@ -103,7 +104,8 @@ WeightsStayWithData == Done /\ wk = "array" => WeightsTravel(cur, d, w, Wts)
 (* fit(perm data, perm weights) is the same regression problem as fit(data, weights) *)
 OrderInvariant ==
     Done => \A pi \in Perms(Len(d)) :
-              SameProblem(Fin(Permute(d, pi), Permute(w, pi), wk), cur, TieConsistent(d, w) \/ wk # "array")
+              SameProblem(Fin(Permute(d, pi), Permute(w, pi), wk), cur)
+TiesOrderedByWeight == Done /\ wk = "array" => TiesByWeight(cur)
 (* a keyword is the same as the corresponding array aligned with the (unsorted) data *)
 KeywordEqualsArray ==
     Done /\ wk \in {"linear", "quadratic", "cubic"} =>
